@@ -222,6 +222,7 @@ func indexCase(w *gal.Writer, keys []string, docker bool, ic types.ImageConfigur
 			implViolation("layout-write-error", map[string]any{"keys": keys, "error": err.Error()})
 			return nil
 		}
+		nLayouts++
 		verifyLayout(layoutDir, len(keys), func(tag, what string) {
 			implViolation("layout-"+tag, map[string]any{"keys": keys, "what": what})
 		})
@@ -256,7 +257,7 @@ func artifactsStage(dir string, seed uint64, tier string) error {
 		}
 	}
 	cov := len(residues)
-	fmt.Printf("STAT {\"tarball_manifest_json_residues_covered\": %d, \"tarballs\": %d}\n", cov, nref)
+	fmt.Printf("STAT {\"tarball_manifest_json_residues_covered\": %d, \"exploration_tarballs_reread\": %d}\n", cov, nref)
 
 	// (b)+(c) indexes and layouts
 	all := archForms[:9]
@@ -296,5 +297,6 @@ func artifactsStage(dir string, seed uint64, tier string) error {
 			return err
 		}
 	}
+	fmt.Printf("STAT {\"exploration_oci_layouts_verified\": %d, \"exploration_artifacts_sha256_recomputed\": %d}\n", nLayouts, nSha)
 	return w.Flush()
 }
